@@ -149,12 +149,12 @@ def run_property(mod, tier='quick', seed=0):
     if bounded:
         seen_b = set()
         for v in bounded.get('violations', []):
-            if v.get('obligation') in seen_b:
-                continue            # one replay file per failed bounded clause
-            seen_b.add(v.get('obligation'))
             kf = known_match(prop, v.get('obligation', ''), v.get('input'))
             if kf is not None:
                 known_hits.append((kf, v)); continue
+            if v.get('obligation') in seen_b:
+                continue            # one replay file per failed bounded clause
+            seen_b.add(v.get('obligation'))
             violations.append(dict(obligation=v.get('obligation'), input=v.get('input'), detail=v.get('detail'),
                                    how='run-time contract failed on the real code (bounded layer)'))
     for r in need_bounded_search:
@@ -216,10 +216,12 @@ def run_property(mod, tier='quick', seed=0):
         'obligation_names': [r['name'] for r in results],
         'obligations_by_backend': backends,
         'solver_seconds': round(solver_s, 2),
+        'obligation_seconds': {r['name']: round(r.get('seconds', 0), 2) for r in results},
         'slowest': [{'obligation': r['name'], 'seconds': round(r.get('seconds', 0), 2)} for r in slow],
         'refuted': [{'obligation': r['name'], 'model': r.get('model'), 'replay': r.get('replay')} for r in refuted],
         'undecided_or_lost': [{'obligation': r['name'], 'verdict': r['verdict'], 'detail': str(r.get('detail'))[:300]} for r in lost],
         'proof_complete': n_ob > 0 and len(discharged) == n_ob,
+        'clauses_left_to_bounded': {r['name']: r['left_to_bounded'] for r in results if r.get('left_to_bounded')},
         'functions_under_contract': funcs,
         'transparent_helpers': transparent,
         'vacuity': [r.get('vacuity') for r in results if r.get('vacuity')],
